@@ -1,6 +1,5 @@
 import TongoGen.CellDesc
 import TongoGen.BocHeader
-import TongoGen.PoolSeqno
 import TongoGen.MinBits
 import TongoModel.Cell
 import TongoModel.Boc
@@ -88,29 +87,6 @@ theorem gen_flagByte (fb : UInt8) : Boc.headerKind Boc.magicGeneric fb =
       (Gen.BocHeader.flagByte fb.toBitVec).2.2.1, (Gen.BocHeader.flagByte fb.toBitVec).2.2.2.1.toNat,
       (Gen.BocHeader.flagByte fb.toBitVec).2.2.2.2.toNat, true⟩ :=
   flagByte_bv fb.toBitVec
-
-/-- liteapi/pool/conn_pool.go, regenerated acceptance test of `findFirstWorkingConnection`
-(`uint64(seqno)+1 >= uint64(maxSeqno)`) is the model's `PoolSelect.working false` (the repaired, non-wrapping test):
-the zero-extended seqno plus one does not wrap in 64 bits. -/
-theorem gen_firstWorkingAccepts (m : BitVec 32) (c : PoolSelect.Conn) :
-    Gen.PoolSeqno.firstWorkingAccepts m c.seqno = PoolSelect.working false m c := by
-  have h1 := m.isLt
-  have h2 := c.seqno.isLt
-  simp [Gen.PoolSeqno.firstWorkingAccepts, PoolSelect.working, BitVec.ule, BitVec.toNat_add, BitVec.toNat_setWidth]
-  omega
-
-/-- liteapi/pool/conn_pool.go, regenerated skip test of `findBestPingConnection`
-(`uint64(seqno)+1 < uint64(maxSeqno)`) is the negation of the model's `PoolSelect.working false`. -/
-theorem gen_bestPingSkips (m : BitVec 32) (c : PoolSelect.Conn) :
-    Gen.PoolSeqno.bestPingSkips m c.seqno = !PoolSelect.working false m c := by
-  have h1 := m.isLt
-  have h2 := c.seqno.isLt
-  simp [Gen.PoolSeqno.bestPingSkips, PoolSelect.working, BitVec.ult, BitVec.toNat_add, BitVec.toNat_setWidth]
-  rw [Nat.mod_eq_of_lt (by omega : c.seqno.toNat + 1 < 18446744073709551616),
-    Nat.mod_eq_of_lt (by omega : m.toNat < 18446744073709551616)]
-  by_cases hle : m.toNat ≤ c.seqno.toNat + 1
-  · simp [hle]
-  · simp [hle]; omega
 
 /-- boc/bitString.go, regenerated width computation of `ReadLimUint(n)` (`ln := minBitsRequired(uint64(n))`) is the
 model's `minBitsRequired` -/
